@@ -26,6 +26,8 @@ Hypotheses and why they are satisfiable (`ex3` below satisfies all of them, for 
   parsed document (objects are distinct, `next` is above every identity in use).
 -/
 namespace Nima.C09
+-- name tokens are compared by spelling in this file (see `NameCmp` in Model/Edit.lean)
+attribute [local instance] NameCmp.spelled
 
 open Node
 
